@@ -216,13 +216,23 @@ def run(chk):
                   N0=5e5, BH_ret_dyn=rng.choice([0.5, 0.8]))
         if rng.random() < 0.5:
             kw.update(natal_kicks=True, vesc=rng.choice([90, 200]), BH_ret_dyn=0.3)
+        if kw["esc_rate"] != 0 or _ == 0:
+            # a core-collapse time between the requested ages: the switch of escape regime happens at tcc, whatever else is requested
+            kw.update(esc_rate=-20.0, tcc=float(rng.choice([5800.0, 2500.0, 7000.0])), esc_norm=rng.choice(["N", "M"]))
+            tout = [100.0, 12000.0] if _ == 0 else tout
         full = emf.EvolvedMF.from_powerlaw(tout=tout, **kw)
         for i, t in enumerate(tout):
             one = emf.EvolvedMF.from_powerlaw(tout=[t], **kw)
             chk.count("real-solver row comparisons")
             for nm, a, b in (("Ns", full.Ns[i], one.Ns[0]), ("Mr.BH", full.Mr.BH[i], one.Mr.BH[0]), ("Mr.WD", full.Mr.WD[i], one.Mr.WD[0])):
-                sc = max(float(np.max(np.abs(b))), 1.0)
-                if np.max(np.abs(a - b)) > 2e-3 * sc:
+                # scale: the row itself, but not less than a thousandth of the initial population (a nearly dissolved cluster is
+                # known only to the integrator's absolute accuracy)
+                sc = max(float(np.max(np.abs(b))), 1e-3 * kw["N0"])
+                # (the right-hand side jumps at the core-collapse time, which is not an integration grid point: dopri5 crosses it with
+                #  step rejections and the schedule-to-schedule scatter grows to ~1e-3; measured on the unchanged tree)
+                #  plus the absolute accuracy of the integration, a few 1e-5 of the initial population, which is all that is known
+                #  about a cluster that has lost 99 % of its stars)
+                if np.max(np.abs(a - b)) > (5e-3 if kw.get("tcc") else 2e-3) * sc + 3e-5 * kw["N0"]:
                     chk.fail("the row for age T is the same (to integrator accuracy) alone or within a schedule [real solver]",
                              dict(kw, tout=tout), dict(row=i, age=t, array=nm, max_abs_diff=float(np.max(np.abs(a - b))), scale=sc))
     # age 0 returns the unevolved IMF with no remnants (real solver)
